@@ -2687,6 +2687,7 @@ ABTU_ret_err int ABTI_thread_handle_request_migrate(ABTI_global *p_global,
         ABTI_thread_get_mig_data(p_global, p_local, p_thread, &p_mig_data);
     ABTI_CHECK_ERROR(abt_errno);
 
+    ABTV_REACH("migrate.request_handled");
     /* Unset the migration request before reading its argument.  A request that
      * is issued while this one is being handled stores p_migration_pool and
      * then sets the request again; if the request were cleared at the end, that
@@ -3123,6 +3124,7 @@ static void thread_join_futexwait(ABTI_thread *p_thread)
             ABTD_atomic_release_store_ythread_context_ptr(&p_ythread->ctx
                                                                .p_link,
                                                           &dummy_ythread.ctx);
+            ABTV_REACH("join.futex_wait");
             ABTD_futex_suspend(&futex);
             /* Resumed. */
         } else {
@@ -3190,6 +3192,7 @@ static inline void thread_join(ABTI_local **pp_local, ABTI_thread *p_thread)
 
     ABTI_ythread *p_ythread = ABTI_thread_get_ythread_or_null(p_thread);
     if (!p_ythread) {
+        ABTV_REACH("join.yield_loop_for_tasklet");
         thread_join_yield_thread(&p_local_xstream, p_self, p_thread);
         *pp_local = ABTI_xstream_get_local(p_local_xstream);
         return;
@@ -3202,9 +3205,11 @@ static inline void thread_join(ABTI_local **pp_local, ABTI_thread *p_thread)
                                                ABTI_THREAD_REQ_JOIN);
     if (req & ABTI_THREAD_REQ_JOIN) {
         /* Fall-back to the yield-based join. */
+        ABTV_REACH("join.fallback_yield_loop_target_terminating");
         thread_join_yield_thread(&p_local_xstream, p_self, &p_ythread->thread);
         *pp_local = ABTI_xstream_get_local(p_local_xstream);
     } else {
+        ABTV_REACH("join.suspend_join");
         /* Suspend the current ULT */
         ABTI_ythread_suspend_join(&p_local_xstream, p_self, p_ythread,
                                   ABT_SYNC_EVENT_TYPE_THREAD_JOIN,
